@@ -51,6 +51,8 @@ func main() {
 			}
 		}
 		os.Exit(rc)
+	case "dump":
+		props.Dump(os.Args[2])
 	case "manifest":
 		if err := writeManifest(); err != nil {
 			fmt.Println(err)
